@@ -45,13 +45,16 @@ def main():
     if ck.thorough():
         fams += ["LayerOverlay-gen-22.cfg", "LayerOverlay-gen-211.cfg", "LayerOverlay-gen-11111s.cfg", "LayerOverlay-gen-2111s.cfg"]
     overlay.run_family(ck, fams, allvariants=ck.thorough())
+    # hard-link entries (tar TypeLink): only the scenarios that hold one, the others are covered above
+    has_hl = lambda c: any(e["kind"] == "hl" for l in c["layers"] for e in l)
+    overlay.run_family(ck, ["LayerOverlay-gen-hl21.cfg"] + (["LayerOverlay-gen-hl111.cfg"] if ck.thorough() else []), allvariants=True, only=has_hl)
     pathtree(ck)
     ck.cov["exhaustive"] = True
     ck.cov["rule"] = ("every image reachable in LayerOverlay.tla under the cfg constants: 1..3 layers of up to 1-3 entries (4 and, thorough, 5 layers over a 3-path sub-universe) (regular files with two contents/modes, directories, symlinks, whiteouts, "
                       "opaque whiteouts) over a 5-path universe of depth 3, any entry order, consistent snapshot diffs only; each image is written as real tar layers (plain, './'-prefixed, absolute "
                       "names, with/without explicit parent entries), loaded with image.FromV1Image, and every chain layer is probed on every universe path by Stat/Open/ReadDir and by fs.WalkDir; "
                       "plus squashed unpack and a requirer-restricted load; non-trivial = at least two layers and the last view differs from the first")
-    ck.cov["not_explored"] += ["hard links, device nodes", "more than 5 layers / 3 entries per layer", "empty layers and history arrangements (covered by C05's alignment cases)",
+    ck.cov["not_explored"] += ["device nodes, hard links to other targets than /e", "more than 5 layers / 3 entries per layer", "empty layers and history arrangements (covered by C05's alignment cases)",
                                "mtime; permission bits of implicit parent directories"]
     ck.assumptions += ["layers are consistent snapshot diffs (no two entries for one path, nothing under a path the same layer makes a non-directory, no marker under a path the same layer whites out)",
                        "Stat/Open follow symlinks: a symlink node is judged through its listing entry and through its resolved target",
